@@ -323,7 +323,7 @@ func blockOnListChangeWorker(
 
 	verifPoint("before-register", ctx.cs)
 	ws := blockFn()
-	defer func() { ctx.dsc.ds.leaveListBlock(ws) }()
+	defer func() { ctx.dsc.ds.leaveListBlock(ws, keyNames) }()
 	verifPoint("after-register", ctx.cs)
 
 	// with notification registered, try operation again immediately
